@@ -15,7 +15,7 @@ SPEC_FILES = ["cache/Ristretto.tla", "cache/MCRistretto.tla"]
 BASE = {
     "Keys": [1, 2], "Hashes": [1, 2], "HashOf": "IdHash", "ConfOf": "NoConf", "Clients": [1, 2],
     "MaxOps": 3, "Ops": ["set", "del", "wait", "get"], "BufCap": 1, "InitMaxCost": 2, "MaxCosts": [2],
-    "Costs": [1, 2], "CostFn": 0, "ItemSize": 0, "TTLs": [0], "D": 2, "MaxTime": 0, "MaxGets": 2,
+    "Costs": [1, 2], "KeyCost": "NoKeyCost", "CostFn": 0, "ItemSize": 0, "TTLs": [0], "D": 2, "MaxTime": 0, "MaxGets": 2,
     "RefuseVals": [], "FixZero": False, "FixAtomic": False, "FixLate": False,
 }
 
@@ -46,7 +46,7 @@ def render_cfg(consts, invariants=(), properties=(), spec="Spec", view=None, con
     c.update(consts)
     lines = ["SPECIFICATION %s" % spec, "CONSTANTS"]
     for k, v in c.items():
-        if k in ("HashOf", "ConfOf"):
+        if k in ("HashOf", "ConfOf", "KeyCost"):
             lines.append("  %s <- %s" % (k, v))
         else:
             lines.append("  %s = %s" % (k, _tla(v)))
@@ -174,13 +174,13 @@ def simulate(ctx, consts, num, depth, name="sim", seed=None):
     return vlib.list_behaviour_files(r.dir, "beh"), c, r
 
 
-def replay(ctx, beh_jsonl, c, name="replay", metrics=True, race=False, timeout=1200):
+def replay(ctx, beh_jsonl, c, name="replay", metrics=True, race=False, timeout=1200, attempts=24):
     """Force the behaviours on the real cache; returns (trace path, summary dict, scratch dir)."""
     cfgp = os.path.join(ctx.scratch, name + "-cfg.json")
     with open(cfgp, "w") as f:
         json.dump(harness_cfg(c, metrics), f)
     rc, out, d = vlib.go_test(ctx, ".", OVERLAYS, "^TestVerifReplay$",
-                              env={"VERIF_CFG": cfgp, "VERIF_INPUT": beh_jsonl}, race=race,
+                              env={"VERIF_CFG": cfgp, "VERIF_INPUT": beh_jsonl, "VERIF_ATTEMPTS": attempts}, race=race,
                               timeout=timeout, name=name)
     trace = os.path.join(d, "cache.ndjson")
     summ = os.path.join(d, "replay.summary.json")
@@ -313,6 +313,14 @@ def _free_scenarios(K6):
          "maxCostOps": False, "ttls": [], "costs": [1], "ample": True, "sleep": False, "yield": True},
         {"name": "hotkey-collide", "cfg": _hc([1, 2], "CollHash", "CollConf", MaxCost=1000, BufCap=64), "goroutines": 10, "opsPer": 100,
          "clear": False, "maxCostOps": False, "ttls": [1, 5], "costs": [1], "ample": True, "sleep": True, "yield": True, "repeat": 3},
+        {"name": "tight-flat", "cfg": _hc(K6, MaxCost=3, BufCap=4), "goroutines": 8, "opsPer": 240, "clear": False, "maxCostOps": False,
+         "ttls": [], "costs": [1, 1, 1, 1, 2, 2], "costByKey": True, "ample": False, "sleep": False, "phases": 12},
+        {"name": "sweeprace-tight", "cfg": _hc([1, 2, 3, 4, 5], MaxCost=4, BufCap=64, D=1), "goroutines": 6, "opsPer": 150, "clear": False,
+         "maxCostOps": False, "ttls": [1, 1, 2, 0, 30], "costs": [1], "ample": False, "sleep": True, "pattern": "sweeprace", "yield": True},
+        {"name": "stall", "cfg": _hc(list(range(1, 13)), MaxCost=100000, BufCap=64, D=1), "goroutines": 1, "opsPer": 1, "clear": False,
+         "maxCostOps": False, "ttls": [40], "costs": [1], "ample": True, "sleep": False, "pattern": "stall", "yield": False},
+        {"name": "shrinkrace", "cfg": _hc([1, 2], MaxCost=10, BufCap=64), "goroutines": 3, "opsPer": 800, "clear": False,
+         "maxCostOps": True, "ttls": [], "costs": [5], "ample": False, "sleep": False, "pattern": "shrinkrace", "yield": False},
         {"name": "expireswap", "cfg": _hc([1, 2], "CollHash", "CollConf", MaxCost=1000, BufCap=64, D=5), "goroutines": 9, "opsPer": 16,
          "clear": False, "maxCostOps": False, "ttls": [1], "costs": [1], "ample": True, "sleep": True, "pattern": "expireswap", "yield": True, "park": True, "repeat": 2},
         {"name": "sweeprace", "cfg": _hc([1, 2, 3], MaxCost=100000, BufCap=64, D=1), "goroutines": 6, "opsPer": 150, "clear": False,
